@@ -406,7 +406,7 @@ func init() {
 		Race:   true,
 		Run:    runC11,
 		Shards: func(tier string) int { return 8 },
-		Rule:   "seeded batches of T in {2,4,8,16} programs evaluated simultaneously on one environment preloaded with all libraries, under the Go race detector: thread i runs a generated program (closures, macros, try/catch, quasiquote, 5% faults) over global names suffixed _ti plus isolation probes that use the same local names (x y z e) in every thread with thread-tagged values (deep let/parameter recursion, catch variable, or/and gensym temporaries, ->, cond, a private memoized function, a future) and defines a 64-element tagged vector; two reader threads poll every thread's vector (unbound or complete); each thread's result and per-goroutine trace must equal its solo run in an identical environment (modulo gensym numbering); distinct = distinct thread-0 program texts",
+		Rule:   "seeded batches of T in {2,4,8,16} programs evaluated simultaneously on one environment preloaded with all libraries, under the Go race detector: thread i runs a generated program (closures, macros, try/catch, quasiquote, 5% faults) over global names suffixed _ti plus isolation probes that use the same local names (x y z e) in every thread with thread-tagged values (deep let/parameter recursion, catch variable, or/and gensym temporaries, ->, cond, a private memoized function, a future) and defines a 64-element tagged vector; two reader threads poll every thread's vector (unbound or complete); each thread's result and per-goroutine trace must equal its solo run in an identical environment (modulo gensym numbering); distinct = distinct thread-0 program texts; a def inside a parameterless function body and inside a future body (same name in every program) must read back its own value and leave the shared environment without that name",
 		Assume: []string{"no Stepper installed (process-wide by design)", "registration of builtins happens before evaluation starts"},
 		Finish: func(m *fw.Merged) {
 			m.Floor("batches", 20)
